@@ -69,7 +69,8 @@ def run(ctx):
                    "read-side chooser returns for index i (writer's and reader's order agree); last sub-word triggers the write; "
                    "memory address = bus address above the sub-word bits", min_sites=6)
     ctx.rule("E7", "a user-fixed CSR location / interrupt number is accepted only inside range(n_locs): the published origin csr_base + "
-                   "paging*n stays inside the window the CSR bridge decodes (same obligations as C13.A3)", min_sites=4)
+                   "paging*n stays inside the window the CSR bridge decodes; published memory regions are checked for overlap on the windows "
+                   "their decoders match (size_pow2), so that an address selects one slave only (same obligations as C13.A3 / A2)", min_sites=9)
     ctx.rule("E5", "generated multi-word accessors: read and write use the same address expression per word and the same "
                    "MSW-first order", min_sites=4)
 
@@ -298,8 +299,9 @@ def run(ctx):
     _e6(ctx)
 
     # ============================================================ E7
-    from .c13 import loc_bound
+    from .c13 import loc_bound, overlap_window
     loc_bound(ctx, "E7")
+    overlap_window(ctx, "E7")
 
 
 def _seq(node, env, lists):
